@@ -189,6 +189,30 @@ def reducer_function(chk, rnd, tmp):
             ok += 1
     chk.validated(ok)
     chk.extra['reducer_function'] = {'rows': nrows, 'folds': nfolds, 'inputs_replayed': len(recs), 'conforming': ok}
+    # the same law for the scores of a cross-validated evaluation: the default reducer of evaluation.Function combines the
+    # scores of ALL folds, each exactly once - also a fold that scored 0
+    from forml import evaluation
+    score_reducer = inspect.signature(evaluation.Function.__init__).parameters['reducer'].default
+    scored = 0
+    for folds in (2, 3, 4):
+        with open(cfg_path, 'w') as fh:
+            fh.write(f'SPECIFICATION Spec\nCONSTANTS NRows = 1\n NFolds = {folds}\n Values = {{0, 1, 4}}\nINVARIANT Combined\n'
+                     'INVARIANT Export\nCHECK_DEADLOCK FALSE\n')
+        for rec in chk.tlc('Reducer', cfg_path, require=['AddRow'], workers=2, timeout=3000).json_prints():
+            scores = [p[0] for p in rec['preds']]
+            want = rec['sums'][0] / folds
+            try:
+                got = float(score_reducer(*[float(x) for x in scores]))
+                problem = None if abs(got - want) < 1e-9 else f'reduced to {got} instead of {want}'
+            except Exception as exc:  # pylint: disable=broad-except
+                problem = f'raised {type(exc).__name__}: {exc}'
+            if problem:
+                chk.fail(f'C12 default metric reducer on fold scores {scores}: {problem} (every fold contributes exactly once)',
+                         {'kind': 'reducer', 'rec': rec})
+            else:
+                scored += 1
+    chk.validated(scored)
+    chk.extra['reducer_function']['fold_score_vectors'] = scored
 
 
 def replay(chk, path):
